@@ -192,5 +192,5 @@ vacuity = std_vacuity
 LEVEL_TEXT = ('bounded symbolic model checking of the real MIR as a product: the same symbolic input runs through two (parser) or four (builder) '
               'instantiations of the type parameter on one path and equality of outcome, error, type, accessors and canonical string is a solver validity query; '
               'decides divergence between purl\'s three PurlShape impls (String, Cow, SmartString) and their callers')
-ASSUMPTIONS = ['SmartString::is_inline() is modelled as len <= 23: a string shortened in place stays on the heap in the real crate; values whose representation differs from what their length implies (in-place truncate through builder.parts / get_mut) are outside the claim (seeded changes S7-C17, S7-C19 are not detected)',
+ASSUMPTIONS = ['SmartString::is_inline() is modelled by a high-water mark per buffer (inline while it never held more than 23 bytes); only the in-place edits listed in the queries (truncate of parts fields / a qualifier value) produce short-but-boxed values',
                'String and SmartString share one model in the engine: differences inside the smartstring crate itself are only sampled by native witness replay']
